@@ -87,13 +87,30 @@ def run(ctx):
                        'LineNumbersCalculator(%s=...) does not receive self.%s' % (nm, nm),
                        construct='forward ' + nm)
     # the lazily built calculator is memoised under `is None` and used for the answer
-    ret = [r for r in iter_own(wp) if isinstance(r, ast.Return)]
-    ok_r = len(ret) == 1 and isinstance(ret[0].value, ast.Call) and \
-        call_name(ret[0].value) == 'pos_to_lineno_colno' and \
-        ret[0].value.args and unparse(ret[0].value.args[0]) == wp.args.args[1].arg
-    ctx.decide('R20b', ok_r, w, wp, 'walker delegates with the queried position',
-               'LatexWalker.pos_to_lineno_colno does not delegate the queried position',
-               construct='delegation')
+    try:
+        rcs = symex.return_cases(wp)
+    except symex.TooManyPaths as e:
+        rcs = None
+        ctx.unknown('R20b', w, wp, str(e), construct='delegation')
+    if rcs is not None:
+        qp = wp.args.args[1].arg
+        bad = None
+        for cs in rcs:
+            v = cs.sub
+            d_ = cs.env.get('#def', {}).get(v.id) if isinstance(v, ast.Name) else None
+            if isinstance(d_, ast.AST):
+                v = d_
+            if not (isinstance(v, ast.Call) and call_name(v) == 'pos_to_lineno_colno' and v.args):
+                bad = (cs, 'returns %s, not the calculator\'s answer' % short(v))
+            elif not (isinstance(v.args[0], ast.Name) and v.args[0].id == qp):
+                bad = (cs, 'asks the calculator about %s, not about the queried position %s'
+                       % (short(v.args[0]), qp))
+        ctx.decide('R20b', bad is None and bool(rcs), w, bad[0].node if bad else wp,
+                   'walker delegates with the queried position on every path (%d)' % len(rcs),
+                   'LatexWalker.pos_to_lineno_colno on the path [%s] %s: that position is reported on '
+                   'another line/column than LineNumbersCalculator gives for it'
+                   % (' & '.join(bad[0].cond_src())[-120:] if bad else '', bad[1] if bad else ''),
+                   construct='delegation')
 
     # ------------------------------------------------------------ R20a
     pcm = w.methods('LatexWalker._ParsingContext')
